@@ -60,8 +60,30 @@ Fixpoint close (tol : R) (a b : val) {struct a} : Prop :=
   | _, _ => False
   end.
 
+(* external calls (numpy.linalg, scipy, astropy, ...) are REPLAYED: the k-th call of a tag returns the k-th value CPython's call
+   returned, and the call is logged with its arguments, which are then compared with the arguments CPython passed *)
+Definition count_tag (t : string) (l : list (string * list val)) : nat := length (filter (fun e => String.eqb (fst e) t) l).
+Definition replay (tag : string) (results : list val) : callee :=
+  COracle (fun args kws w =>
+    match nth_error results (count_tag tag (olog w)) with
+    | Some v => Ok (v, World (rng w) (cur w) ((tag, args ++ map snd kws)%list :: olog w) (decs w) (pc w))
+    | None => Stuck ("replay exhausted: " ++ tag) end).
+(* the same for a method of an opaque object: the receiver is dropped from the logged arguments *)
+Definition replay_m (tag : string) (results : list val) : callee :=
+  COracle (fun args kws w =>
+    match nth_error results (count_tag tag (olog w)) with
+    | Some v => Ok (v, World (rng w) (cur w) ((tag, tl args ++ map snd kws)%list :: olog w) (decs w) (pc w))
+    | None => Stuck ("replay exhausted: " ++ tag) end).
+Fixpoint close_log (tol : R) (l1 l2 : list (string * list val)) : Prop :=
+  match l1, l2 with
+  | [], [] => True
+  | (t, a) :: r, (t', a') :: s => t = t' /\ close tol (VList a) (VList a') /\ close_log tol r s
+  | _, _ => False end.
 Definition corr_ok (mk : list bool -> res (val * world)) (expected : val) (draws : nat) (tol : R) : Prop :=
   exists ds v w', mk ds = Ok (v, w') /\ decs w' = [] /\ cur w' = draws /\ holds (pc w') /\ close tol v expected.
+(* with external calls: additionally the logged calls (in call order) are the calls CPython made, argument by argument *)
+Definition corr_ok_log (mk : list bool -> res (val * world)) (expected : val) (draws : nat) (tol : R) (calls : list (string * list val)) : Prop :=
+  exists ds v w', mk ds = Ok (v, w') /\ decs w' = [] /\ cur w' = draws /\ holds (pc w') /\ close tol v expected /\ close_log tol (rev (olog w')) calls.
 (* CPython raised: the interpreter ends in the same exception kind (the answers are justified by the tactic that finds them;
    an exception result carries no path condition, so they are not part of the statement) *)
 Definition corr_exc (mk : list bool -> res (val * world)) (kind : string) : Prop := exists ds, mk ds = Exc kind.
@@ -80,7 +102,7 @@ Ltac close_leaf :=
   | |- @eq _ _ _ => reflexivity
   end.
 Ltac close_goal :=
-  lazy [close xnear]; repeat match goal with |- _ /\ _ => split end;
+  lazy [close xnear close_log rev app olog]; repeat match goal with |- _ /\ _ => split end;
   first [ close_leaf | match goal with |- ?g => fail 10000 "PySem result differs from CPython:" g end ].
 (* [find_answers2 mk ds k]: extend the answer list until the interpreter no longer stops at [Need]; failures of the continuation
    escape with level 10000 so that they are reported as what they are and not as an undecided fact *)
@@ -113,6 +135,22 @@ Ltac corr_case :=
                       [ cbn [decs cur olog pc holds]; repeat match goal with |- _ /\ _ => split end;
                         first [ exact I | num_fact2 | match goal with |- ?g => fail 10000 "path condition not provable:" g end ]
                       | close_goal ]]] ])
+  | |- corr_ok_log ?mk ?exp ?dr ?tol ?calls =>
+      find_answers2 mk (@nil bool)
+        ltac:(fun ds =>
+                let r := RUN_ (mk ds) in
+                lazymatch r with
+                | Ok _ => idtac
+                | _ => fail 10000 "PySem does not produce a value where CPython returned one:" r
+                end;
+                exists ds; eexists; eexists; split;
+                [ run; reflexivity
+                | split; [first [reflexivity | fail 10000 "unconsumed answers"]
+                  | split; [first [reflexivity | match goal with |- ?g => fail 10000 "number of raw variates consumed differs:" g end]
+                    | split;
+                      [ cbn [decs cur olog pc holds]; repeat match goal with |- _ /\ _ => split end;
+                        first [ exact I | num_fact2 | match goal with |- ?g => fail 10000 "path condition not provable:" g end ]
+                      | split; close_goal ]]] ])
   | |- corr_exc ?mk ?kind =>
       find_answers2 mk (@nil bool)
         ltac:(fun ds => exists ds; first [ run; reflexivity
